@@ -11,6 +11,8 @@ import (
 
 func (ft *funcTrans) block(b *ssa.BasicBlock) {
 	w := ft.w
+	w.curBlock = b.Index
+	defer func() { w.curBlock = -1 }()
 	// reach condition
 	var fwdPreds []*ssa.BasicBlock
 	for _, p := range b.Preds {
@@ -168,12 +170,27 @@ func (ft *funcTrans) loopHeader(li *loopInfo, fwdPreds []*ssa.BasicBlock, merged
 				return ft.coerceTo(ft.termOf(phi.Edges[pi]), w.sortOf(phi.Type()))
 			})
 			for k, inv := range li.lc.Invariants {
-				ec := &evalCtx{w: w, pkg: ft.pkgTypes(), env: env, st: pst, old: ft.entry}
+				ec := &evalCtx{w: w, pkg: ft.pkgTypes(), env: env, st: pst, old: ft.entry, lets: ft.lets()}
 				t := ec.evalBool(inv.E)
 				saved := ft.reach[b]
 				ft.reach[b] = edge
 				ft.obligation("invariant", fmt.Sprintf("loop%d.inv%d.entry", li.ordinal, k+1), inv.Src, t.S)
 				ft.reach[b] = saved
+			}
+		}
+	}
+	if ft.c != nil && ft.c.HasAssigns {
+		// implicit frame invariant, on entry
+		for _, p := range fwdPreds {
+			pst := ft.out[p]
+			edge := ft.edges[[2]int{p.Index, b.Index}]
+			for _, h := range ft.loopFrameHeaps(li, pst) {
+				if g := ft.frameGoal(pst, h); g != "" {
+					saved := ft.reach[b]
+					ft.reach[b] = edge
+					ft.obligation("frame", fmt.Sprintf("loop%d.frame.%s.entry", li.ordinal, h), "loop keeps "+h+" within the assigns clause", g)
+					ft.reach[b] = saved
+				}
 			}
 		}
 	}
@@ -216,11 +233,18 @@ func (ft *funcTrans) assumeInvariants(li *loopInfo) {
 		ft.hdrAssumed = map[*ssa.BasicBlock]bool{}
 	}
 	ft.hdrAssumed[li.header] = true
+	if ft.c != nil && ft.c.HasAssigns {
+		for _, h := range ft.loopFrameHeaps(li, li.hdrState) {
+			if g := ft.frameGoal(li.hdrState, h); g != "" {
+				ft.assume(g)
+			}
+		}
+	}
 	if li.lc == nil {
 		return
 	}
 	env := ft.loopEnv(li, func(phi *ssa.Phi) Term { return ft.vals[phi].T })
-	ec := &evalCtx{w: w, pkg: ft.pkgTypes(), env: env, st: li.hdrState, old: ft.entry}
+	ec := &evalCtx{w: w, pkg: ft.pkgTypes(), env: env, st: li.hdrState, old: ft.entry, lets: ft.lets()}
 	for _, inv := range li.lc.Invariants {
 		t := ec.evalBool(inv.E)
 		ft.assume(t.S)
@@ -237,6 +261,16 @@ func (ft *funcTrans) assumeInvariants(li *loopInfo) {
 // backEdge asserts invariant preservation and measure decrease.
 func (ft *funcTrans) backEdge(from *ssa.BasicBlock, li *loopInfo, edgeCond string) {
 	w := ft.w
+	if ft.c != nil && ft.c.HasAssigns {
+		saved := ft.reach[ft.cur]
+		ft.reach[ft.cur] = edgeCond
+		for _, h := range ft.loopFrameHeaps(li, ft.curSt) {
+			if g := ft.frameGoal(ft.curSt, h); g != "" {
+				ft.obligation("frame", fmt.Sprintf("loop%d.frame.%s.preserved@b%d", li.ordinal, h, from.Index), "loop keeps "+h+" within the assigns clause", g)
+			}
+		}
+		ft.reach[ft.cur] = saved
+	}
 	if li.lc == nil {
 		return
 	}
@@ -244,7 +278,7 @@ func (ft *funcTrans) backEdge(from *ssa.BasicBlock, li *loopInfo, edgeCond strin
 	env := ft.loopEnv(li, func(phi *ssa.Phi) Term {
 		return ft.coerceTo(ft.termOf(phi.Edges[pi]), w.sortOf(phi.Type()))
 	})
-	ec := &evalCtx{w: w, pkg: ft.pkgTypes(), env: env, st: ft.curSt, old: ft.entry}
+	ec := &evalCtx{w: w, pkg: ft.pkgTypes(), env: env, st: ft.curSt, old: ft.entry, lets: ft.lets()}
 	saved := ft.reach[ft.cur]
 	ft.reach[ft.cur] = edgeCond
 	for k, inv := range li.lc.Invariants {
@@ -437,4 +471,23 @@ func posStr(fset *token.FileSet, p token.Pos) string {
 		f = f[i+1:]
 	}
 	return fmt.Sprintf("%s:%d", f, ps.Line)
+}
+
+// loopFrameHeaps: heaps for which the implicit frame invariant is stated.
+func (ft *funcTrans) loopFrameHeaps(li *loopInfo, st *State) []string {
+	m := map[string]bool{}
+	if li.modAll {
+		for _, h := range ft.allHeaps() {
+			if _, ok := ft.w.heapSorts[h]; ok {
+				m[h] = true
+			}
+		}
+	} else {
+		for h := range li.modHeaps {
+			if _, ok := ft.w.heapSorts[h]; ok {
+				m[h] = true
+			}
+		}
+	}
+	return sortedKeys(m)
 }
